@@ -412,8 +412,12 @@ func init() {
 		if prop == "C19" {
 			rule = "same search as C18 (depth 6, thorough 8) with configurations in which client A exceeds its own per-IP / per-connection limit while client B stays within its limits; the reference model charges the global bucket only for admitted requests; every request it admits must be admitted by the real limiter."
 		}
+		var also []string
+		if prop == "C18" {
+			also = []string{"C18.conc"}
+		}
 		vRegister(&vCheck{
-			id: prop, level: "model_checking", flavour: "vtime",
+			id: prop, level: "model_checking", flavour: "vtime", also: also,
 			shards: func(string) int { return 12 },
 			rule:   rule,
 			assumptions: []string{"a decision taken with a bucket within 1e-6 token of the threshold is not judged (the implementation uses float64)",
